@@ -1,6 +1,7 @@
 import RbV.Model.Fasta
 import RbV.Model.Fastq
 import RbV.Model.BufLines
+import RbV.Model.UniWs
 /-!
 # Stateful mirror of `fasta::Reader::read` / `fastq::Reader::read` / `Records` over the `BufReader` model  (C11)
 
@@ -79,12 +80,12 @@ deriving DecidableEq, Repr, Inhabited
 
 /-- the `loop` of `Reader::read`: `line.clear(); read_line(&mut line)?; if line.is_empty() || line.starts_with('>')
 { break } seq.push_str(line.trim_end())`.  `none` = the `?` fired. -/
-def faLoop (c : Nat) (sched : Nat → Nat) (rd : St) (seq : Bytes) : Option (Bytes × Bytes) × St :=
+def faLoop (T : Txt) (c : Nat) (sched : Nat → Nat) (rd : St) (seq : Bytes) : Option (Bytes × Bytes) × St :=
   match h : readLineStr c sched rd with
   | (none, rd') => (none, rd')
   | (some l, rd') =>
     if l.isEmpty || startsWith l 62 then (some (seq, l), rd')
-    else faLoop c sched rd' (seq ++ trimEnd l)
+    else faLoop T c sched rd' (seq ++ T.trim l)
 termination_by rd.pending.length
 decreasing_by
   rename_i hne
@@ -96,23 +97,23 @@ decreasing_by
   · exact hp
 
 /-- `Reader::read` from the point where `self.line` holds a non-empty line -/
-def faFromHeader (c : Nat) (sched : Nat → Nat) (r : FaReader) : FaOut × FaReader :=
+def faFromHeader (T : Txt) (c : Nat) (sched : Nat → Nat) (r : FaReader) : FaOut × FaReader :=
   if !startsWith r.line 62 then (.err, r)
   else
-    match faLoop c sched r.rd [] with
+    match faLoop T c sched r.rd [] with
     | (none, rd') => (.utf8, { rd := rd', line := [] })
     | (some (seq, l), rd') =>
-      (.record { id := (faHeader r.line).1, desc := (faHeader r.line).2, seq := seq }, { rd := rd', line := l })
+      (.record { id := (T.faHdr r.line).1, desc := (T.faHdr r.line).2, seq := seq }, { rd := rd', line := l })
 
 /-- `Reader::read` -/
-def faReadS (c : Nat) (sched : Nat → Nat) (r : FaReader) : FaOut × FaReader :=
+def faReadS (T : Txt) (c : Nat) (sched : Nat → Nat) (r : FaReader) : FaOut × FaReader :=
   if r.line.isEmpty then
     match readLineStr c sched r.rd with
     | (none, rd') => (.utf8, { rd := rd', line := [] })
     | (some l, rd') =>
       if l.isEmpty then (.record { id := [], desc := none, seq := [] }, { rd := rd', line := [] })
-      else faFromHeader c sched { rd := rd', line := l }
-  else faFromHeader c sched r
+      else faFromHeader T c sched { rd := rd', line := l }
+  else faFromHeader T c sched r
 
 /-- an item of the `Records` iterators with the I/O error `InvalidData` -/
 inductive SItem (α : Type) where
@@ -123,31 +124,31 @@ deriving DecidableEq, Repr, Inhabited
 /-- `Records` drained (`next` until `None`; after an error the iterator ends); the same sequence of `read` calls is
 made by the loop `read(&mut record)` until `record.is_empty()` or an error.  `fuel` bounds the number of `next`
 calls; `parseFastaVia` supplies more than there are lines. -/
-def faDrain (c : Nat) (sched : Nat → Nat) : Nat → FaReader → List (SItem FaItem) × FaReader
+def faDrain (T : Txt) (c : Nat) (sched : Nat → Nat) : Nat → FaReader → List (SItem FaItem) × FaReader
   | 0, r => ([], r)
   | fuel + 1, r =>
-    match faReadS c sched r with
+    match faReadS T c sched r with
     | (.utf8, r') => ([.utf8], r')
     | (.err, r') => ([.item .err], r')
     | (.record x, r') =>
       if x.isEmpty then ([], r')
-      else (.item (.ok x) :: (faDrain c sched fuel r').1, (faDrain c sched fuel r').2)
+      else (.item (.ok x) :: (faDrain T c sched fuel r').1, (faDrain T c sched fuel r').2)
 
 /-- `fasta::Reader::from_bufread(BufReader::with_capacity(c, source))`, `.records()` drained -/
-def parseFastaVia (c : Nat) (sched : Nat → Nat) (file : Bytes) : List (SItem FaItem) :=
-  (faDrain c sched (file.length + 1) { rd := init file, line := [] }).1
+def parseFastaVia (T : Txt) (c : Nat) (sched : Nat → Nat) (file : Bytes) : List (SItem FaItem) :=
+  (faDrain T c sched (file.length + 1) { rd := init file, line := [] }).1
 
 /-! ## FASTQ -/
 
 /-- `read_line` + `while !line.is_empty() && !line.starts_with('+') { seq.push_str(line.trim_end()); line.clear();
 read_line(&mut line)?; lines_read += 1 }`, written with the `read_line` at the head of the loop; the line that ends
 the loop is dropped (the code clears the buffer before the next `read_line`) -/
-def fqSeqLoop (c : Nat) (sched : Nat → Nat) (rd : St) (seq : Bytes) (n : Nat) : Option (Bytes × Nat) × St :=
+def fqSeqLoop (T : Txt) (c : Nat) (sched : Nat → Nat) (rd : St) (seq : Bytes) (n : Nat) : Option (Bytes × Nat) × St :=
   match h : readLineStr c sched rd with
   | (none, rd') => (none, rd')
   | (some l, rd') =>
     if l.isEmpty || startsWith l 43 then (some (seq, n), rd')
-    else fqSeqLoop c sched rd' (seq ++ trimEnd l) (n + 1)
+    else fqSeqLoop T c sched rd' (seq ++ T.trim l) (n + 1)
 termination_by rd.pending.length
 decreasing_by
   rename_i hne
@@ -159,12 +160,12 @@ decreasing_by
   · exact hp
 
 /-- `for _ in 0..lines_read { line.clear(); read_line(&mut line)?; qual.push_str(line.trim_end()) }` -/
-def fqQualLoop (c : Nat) (sched : Nat → Nat) : Nat → St → Bytes → Option Bytes × St
+def fqQualLoop (T : Txt) (c : Nat) (sched : Nat → Nat) : Nat → St → Bytes → Option Bytes × St
   | 0, rd, q => (some q, rd)
   | n + 1, rd, q =>
     match readLineStr c sched rd with
     | (none, rd') => (none, rd')
-    | (some l, rd') => fqQualLoop c sched n rd' (q ++ trimEnd l)
+    | (some l, rd') => fqQualLoop T c sched n rd' (q ++ T.trim l)
 
 /-- what `fastq::Reader::read` returns: `Ok(())` with an empty record (end of input), a record or a format error,
 `Err(ReadError(InvalidData))` -/
@@ -175,45 +176,45 @@ inductive FqOut where
 deriving DecidableEq, Repr, Inhabited
 
 /-- `fastq::Reader::read` (the reader's only state is the `BufReader`: `line_buffer` is cleared before every use) -/
-def fqReadS (c : Nat) (sched : Nat → Nat) (rd : St) : FqOut × St :=
+def fqReadS (T : Txt) (c : Nat) (sched : Nat → Nat) (rd : St) : FqOut × St :=
   match readLineStr c sched rd with
   | (none, rd1) => (.utf8, rd1)
   | (some l, rd1) =>
     if l.isEmpty then (.eof, rd1)
     else if !startsWith l 64 then (.item .missingAt, rd1)
     else
-      match fqSeqLoop c sched rd1 [] 0 with
+      match fqSeqLoop T c sched rd1 [] 0 with
       | (none, rd2) => (.utf8, rd2)
       | (some (seq, n), rd2) =>
-        match fqQualLoop c sched n rd2 [] with
+        match fqQualLoop T c sched n rd2 [] with
         | (none, rd3) => (.utf8, rd3)
         | (some q, rd3) =>
           if q.isEmpty then (.item .incomplete, rd3)
-          else (.item (.ok { id := (fqHeader l).1, desc := (fqHeader l).2, seq := seq, qual := q }), rd3)
+          else (.item (.ok { id := (T.fqHdr l).1, desc := (T.fqHdr l).2, seq := seq, qual := q }), rd3)
 
 /-- `fastq::Records` drained: errors are items, the iteration goes on until `read` leaves the record empty -/
-def fqDrain (c : Nat) (sched : Nat → Nat) : Nat → St → List (SItem FqItem) × St
+def fqDrain (T : Txt) (c : Nat) (sched : Nat → Nat) : Nat → St → List (SItem FqItem) × St
   | 0, rd => ([], rd)
   | fuel + 1, rd =>
-    match fqReadS c sched rd with
+    match fqReadS T c sched rd with
     | (.eof, rd') => ([], rd')
-    | (.item i, rd') => (.item i :: (fqDrain c sched fuel rd').1, (fqDrain c sched fuel rd').2)
-    | (.utf8, rd') => (.utf8 :: (fqDrain c sched fuel rd').1, (fqDrain c sched fuel rd').2)
+    | (.item i, rd') => (.item i :: (fqDrain T c sched fuel rd').1, (fqDrain T c sched fuel rd').2)
+    | (.utf8, rd') => (.utf8 :: (fqDrain T c sched fuel rd').1, (fqDrain T c sched fuel rd').2)
 
-def parseFastqVia (c : Nat) (sched : Nat → Nat) (file : Bytes) : List (SItem FqItem) :=
-  (fqDrain c sched (file.length + 1) (init file)).1
+def parseFastqVia (T : Txt) (c : Nat) (sched : Nat → Nat) (file : Bytes) : List (SItem FqItem) :=
+  (fqDrain T c sched (file.length + 1) (init file)).1
 
 /-! ## The list models with the UTF-8 check -/
 
 /-- `faSeq` with validation (`none`: a line that is not valid UTF-8 was met) -/
-def faSeqU : List Bytes → Option (Bytes × List Bytes)
+def faSeqU (T : Txt) : List Bytes → Option (Bytes × List Bytes)
   | [] => some ([], [])
   | l :: ls =>
     if !validUtf8 l then none
     else if startsWith l 62 then some ([], l :: ls)
-    else (faSeqU ls).map fun p => (trimEnd l ++ p.1, p.2)
+    else (faSeqU T ls).map fun p => (T.trim l ++ p.1, p.2)
 
-theorem faSeqU_length_le (ls : List Bytes) : ∀ p, faSeqU ls = some p → p.2.length ≤ ls.length := by
+theorem faSeqU_length_le (T : Txt) (ls : List Bytes) : ∀ p, faSeqU T ls = some p → p.2.length ≤ ls.length := by
   induction ls with
   | nil => intro p h; simp [faSeqU] at h; subst h; simp
   | cons l ls ih =>
@@ -228,67 +229,67 @@ theorem faSeqU_length_le (ls : List Bytes) : ∀ p, faSeqU ls = some p → p.2.l
         have := ih q hq
         simp only [List.length_cons]; omega
 
-def faRecordsU (lines : List Bytes) : List (SItem FaItem) :=
+def faRecordsU (T : Txt) (lines : List Bytes) : List (SItem FaItem) :=
   match lines with
   | [] => []
   | l :: ls =>
     if !validUtf8 l then [.utf8]
     else if !startsWith l 62 then [.item .err]
     else
-      match h : faSeqU ls with
+      match h : faSeqU T ls with
       | none => [.utf8]
       | some p =>
-        let r : FaRec := { id := (faHeader l).1, desc := (faHeader l).2, seq := p.1 }
-        if r.isEmpty then [] else .item (.ok r) :: faRecordsU p.2
+        let r : FaRec := { id := (T.faHdr l).1, desc := (T.faHdr l).2, seq := p.1 }
+        if r.isEmpty then [] else .item (.ok r) :: faRecordsU T p.2
 termination_by lines.length
 decreasing_by
-  have := faSeqU_length_le ls p h
+  have := faSeqU_length_le T ls p h
   simp only [List.length_cons]; omega
 
 /-- what the FASTA reader yields on a byte stream, UTF-8 errors included -/
-def parseFastaU (file : Bytes) : List (SItem FaItem) := faRecordsU (splitLines file)
+def parseFastaU (T : Txt) (file : Bytes) : List (SItem FaItem) := faRecordsU T (splitLines file)
 
 /-- `fqSeq` with validation; `error ls` = a bad line was met, `ls` are the lines after it -/
-def fqSeqU : List Bytes → Except (List Bytes) (Bytes × Nat × List Bytes)
+def fqSeqU (T : Txt) : List Bytes → Except (List Bytes) (Bytes × Nat × List Bytes)
   | [] => .ok ([], 0, [])
   | l :: ls =>
     if !validUtf8 l then .error ls
     else if startsWith l 43 then .ok ([], 0, l :: ls)
-    else match fqSeqU ls with
+    else match fqSeqU T ls with
       | .error r => .error r
-      | .ok p => .ok (trimEnd l ++ p.1, p.2.1 + 1, p.2.2)
+      | .ok p => .ok (T.trim l ++ p.1, p.2.1 + 1, p.2.2)
 
-def fqQualU : Nat → List Bytes → Except (List Bytes) (Bytes × List Bytes)
+def fqQualU (T : Txt) : Nat → List Bytes → Except (List Bytes) (Bytes × List Bytes)
   | 0, ls => .ok ([], ls)
-  | n + 1, [] => fqQualU n []
+  | n + 1, [] => fqQualU T n []
   | n + 1, l :: ls =>
     if !validUtf8 l then .error ls
-    else match fqQualU n ls with
+    else match fqQualU T n ls with
       | .error r => .error r
-      | .ok p => .ok (trimEnd l ++ p.1, p.2)
+      | .ok p => .ok (T.trim l ++ p.1, p.2)
 
-def fqReadU (l : Bytes) (ls : List Bytes) : SItem FqItem × List Bytes :=
+def fqReadU (T : Txt) (l : Bytes) (ls : List Bytes) : SItem FqItem × List Bytes :=
   if !validUtf8 l then (.utf8, ls)
   else if !startsWith l 64 then (.item .missingAt, ls)
   else
-    match fqSeqU ls with
+    match fqSeqU T ls with
     | .error r => (.utf8, r)
     | .ok s =>
-      match fqQualU s.2.1 s.2.2.tail with
+      match fqQualU T s.2.1 s.2.2.tail with
       | .error r => (.utf8, r)
       | .ok q =>
         if q.1.isEmpty then (.item .incomplete, q.2)
-        else (.item (.ok { id := (fqHeader l).1, desc := (fqHeader l).2, seq := s.1, qual := q.1 }), q.2)
+        else (.item (.ok { id := (T.fqHdr l).1, desc := (T.fqHdr l).2, seq := s.1, qual := q.1 }), q.2)
 
-theorem fqSeqU_length_le (ls : List Bytes) :
-    (∀ r, fqSeqU ls = .error r → r.length ≤ ls.length) ∧ (∀ p, fqSeqU ls = .ok p → p.2.2.length ≤ ls.length) := by
+theorem fqSeqU_length_le (T : Txt) (ls : List Bytes) :
+    (∀ r, fqSeqU T ls = .error r → r.length ≤ ls.length) ∧ (∀ p, fqSeqU T ls = .ok p → p.2.2.length ≤ ls.length) := by
   induction ls with
   | nil => simp [fqSeqU]
   | cons l ls ih =>
     by_cases hv : validUtf8 l = true
     · by_cases hp : startsWith l 43 = true
       · simp [fqSeqU, hv, hp]
-      · cases hq : fqSeqU ls with
+      · cases hq : fqSeqU T ls with
         | error r =>
           have := ih.1 r hq
           simp only [fqSeqU, hv, hp, hq]
@@ -299,8 +300,8 @@ theorem fqSeqU_length_le (ls : List Bytes) :
           simp; omega
     · simp [fqSeqU, hv]
 
-theorem fqQualU_length_le (n : Nat) (ls : List Bytes) :
-    (∀ r, fqQualU n ls = .error r → r.length ≤ ls.length) ∧ (∀ p, fqQualU n ls = .ok p → p.2.length ≤ ls.length) := by
+theorem fqQualU_length_le (T : Txt) (n : Nat) (ls : List Bytes) :
+    (∀ r, fqQualU T n ls = .error r → r.length ≤ ls.length) ∧ (∀ p, fqQualU T n ls = .ok p → p.2.length ≤ ls.length) := by
   induction n generalizing ls with
   | zero => simp [fqQualU]
   | succ n ih =>
@@ -308,7 +309,7 @@ theorem fqQualU_length_le (n : Nat) (ls : List Bytes) :
     | nil => simpa [fqQualU] using ih []
     | cons l ls =>
       by_cases hv : validUtf8 l = true
-      · cases hq : fqQualU n ls with
+      · cases hq : fqQualU T n ls with
         | error r =>
           have := (ih ls).1 r hq
           simp only [fqQualU, hv, hq]
@@ -319,19 +320,19 @@ theorem fqQualU_length_le (n : Nat) (ls : List Bytes) :
           simp; omega
       · simp [fqQualU, hv]
 
-theorem fqReadU_length_le (l : Bytes) (ls : List Bytes) : (fqReadU l ls).2.length ≤ ls.length := by
+theorem fqReadU_length_le (T : Txt) (l : Bytes) (ls : List Bytes) : (fqReadU T l ls).2.length ≤ ls.length := by
   unfold fqReadU
   split
   · simp
   · split
     · simp
-    · have h1 := fqSeqU_length_le ls
+    · have h1 := fqSeqU_length_le T ls
       split
       · rename_i r heq
         exact h1.1 r heq
       · rename_i s heq
         have h1' := h1.2 s heq
-        have h2 := fqQualU_length_le s.2.1 s.2.2.tail
+        have h2 := fqQualU_length_le T s.2.1 s.2.2.tail
         have h3 : s.2.2.tail.length ≤ s.2.2.length := by simp
         split
         · rename_i r heq2
@@ -341,16 +342,16 @@ theorem fqReadU_length_le (l : Bytes) (ls : List Bytes) : (fqReadU l ls).2.lengt
           have := h2.2 q heq2
           split <;> simp only <;> omega
 
-def fqRecordsU (lines : List Bytes) : List (SItem FqItem) :=
+def fqRecordsU (T : Txt) (lines : List Bytes) : List (SItem FqItem) :=
   match lines with
   | [] => []
-  | l :: ls => (fqReadU l ls).1 :: fqRecordsU (fqReadU l ls).2
+  | l :: ls => (fqReadU T l ls).1 :: fqRecordsU T (fqReadU T l ls).2
 termination_by lines.length
 decreasing_by
-  have := fqReadU_length_le l ls
+  have := fqReadU_length_le T l ls
   simp only [List.length_cons]; omega
 
 /-- what the FASTQ reader yields on a byte stream, UTF-8 errors included -/
-def parseFastqU (file : Bytes) : List (SItem FqItem) := fqRecordsU (splitLines file)
+def parseFastqU (T : Txt) (file : Bytes) : List (SItem FqItem) := fqRecordsU T (splitLines file)
 
 end RbV.Fastx
